@@ -184,6 +184,20 @@ CHECKS["C18"] = dict(
          "recomputed. One-by-one vs all-at-once application and apply_params_to_script (tx.rs) are not covered.",
     technique="TLC enumeration of apply / save-load histories with expected outcomes; replay through the real blueprint API")
 
+CHECKS["C09"] = dict(
+    category="model_checking",
+    text="CodeGenReuse.tla models what the code generator relies on to be history-independent (counters reset by finalize, a constant "
+         "cache that survives resets and replays the id increments of a compilation, clones for property tests) and TLC checks over every "
+         "history in the bound that the output attached to an item is a function of the item alone. Every history (generate / generate on "
+         "a dropped clone / continue on a clone, over functions referring to 0-3 shared module constants in different orders and a "
+         "3-handler validator) is replayed on one real CodeGenerator under two tracing modes and each program is compared byte for byte "
+         "with a fresh generator's. The project is also built repeatedly (in-process repeats with fresh hash seeds, separate processes, "
+         "1/4/16 rayon threads) and the blueprints must be identical.",
+    design_ref="DESIGN.md section 6 C09, section 4.7",
+    note="Hash-map seed space, file discovery order and scheduling are sampled by repetition, not enumerated; permutations of module "
+         "registration order are not covered. The comparison itself is byte equality.",
+    technique="TLC enumeration of generator-reuse histories + replay on the real CodeGenerator; repeated builds")
+
 NOT_BUILT = "not built yet (machinery under construction, see DESIGN.md section 10)"
 
 
